@@ -134,6 +134,24 @@ def chkReduceComplete (start' : String) (follow : String → List String) (S : S
         las.all fun a => (T.cell Is.2 a).contains (.reduce it.prod)
     else true
 
+/-- `nl` is closed under the productions: a head whose body is all nullable is nullable -/
+def chkNullClosed (ps : List Pr) (nl : List String) : Bool :=
+  ps.all fun p => !(p.body.all (symNullable nl)) || nl.contains p.head
+
+/-- `fe` is closed under the productions: FIRST of a body is contained in FIRST of its head -/
+def chkFirstClosed (ps : List Pr) (nl : List String) (fe : Env) : Bool :=
+  ps.all fun p => (firstOfStr nl fe p.body).all fun c => (envGet fe p.head).contains c
+
+/-- no conflict: at most one action per cell -/
+def chkConflictFree (T : Table) : Bool := T.actions.all fun e => e.2.length ≤ 1
+
+/-- state 0 holds the LR(1) initial item `[S′ → •S, $]` -/
+def chkInitLR1 (g : SGrammar) (start' : String) (S : StateMap) : Bool :=
+  (itemsAt S 0).contains { prod := { head := start', body := [Sym.nonterm g.start] }, dot := 0, la := some endmarker }
+
+/-- every item carries a lookahead (the table was built from LR(1) items) -/
+def chkAllLR1 (S : StateMap) : Bool := S.all fun I => I.all fun it => it.la.isSome
+
 def completeChecks (g : SGrammar) (b : Built) : List (String × Bool) :=
   match augment g with
   | .ok g' =>
@@ -141,6 +159,8 @@ def completeChecks (g : SGrammar) (b : Built) : List (String × Bool) :=
     let fe := firstEnv g' nl
     let fo := followEnv g' nl fe
     [ ("has-initial-item", chkHasInitial g b.start b.states),
+      ("nullable-closed", chkNullClosed g'.prods nl),
+      ("first-closed", chkFirstClosed g'.prods nl fe),
       ("closed", chkClosed g' nl fe b.states),
       ("advance", chkAdvance b.states b.table),
       ("reduce-complete", chkReduceComplete b.start (envGet fo) b.states b.table) ]
@@ -151,6 +171,92 @@ def tableCheck (g : SGrammar) (b : Built) : Option String :=
   ((soundChecks g b ++ completeChecks g b).find? (fun c => !c.2)).map (·.1)
 
 def soundOK (g : SGrammar) (b : Built) : Bool := (soundChecks g b).all (·.2)
+
+/-- the completeness group for a conflict-free table built from LR(1) items (LALR(1), canonical LR(1)):
+what `C11_complete` needs -/
+def completeLR1OK (g : SGrammar) (b : Built) : Bool :=
+  match augment g with
+  | .ok g' =>
+    let nl := nullableOf g'
+    let fe := firstEnv g' nl
+    g'.start == b.start &&
+    chkNullClosed g'.prods nl && chkFirstClosed g'.prods nl fe &&
+    chkInitLR1 g b.start b.states && chkAllLR1 b.states &&
+    chkClosed g' nl fe b.states && chkAdvance b.states b.table &&
+    chkReduceComplete b.start (fun _ => []) b.states b.table &&
+    chkConflictFree b.table && chkFresh g b.start
+  | _ => false
+
+/-- FOLLOW is closed under one production body: for `A → α B β`, FIRST(β) ⊆ FOLLOW(B), and FOLLOW(A) ⊆ FOLLOW(B) when
+β is nullable -/
+def followClosedBody (nl : List String) (fe fo : Env) (head : String) : List Sy → Bool
+  | [] => true
+  | .term _ :: rest => followClosedBody nl fe fo head rest
+  | .nonterm B :: rest =>
+    (firstOfStr nl fe rest).all (fun c => (envGet fo B).contains c) &&
+    (!(rest.all (symNullable nl)) || (envGet fo head).all (fun c => (envGet fo B).contains c)) &&
+    followClosedBody nl fe fo head rest
+
+def chkFollowClosed (ps : List Pr) (nl : List String) (fe fo : Env) : Bool :=
+  ps.all fun p => followClosedBody nl fe fo p.head p.body
+
+/-- the completeness group for a conflict-free SLR(1) table (LR(0) items, reductions on FOLLOW):
+what `C11_complete_validated_slr` needs -/
+def completeSLROK (g : SGrammar) (b : Built) : Bool :=
+  match augment g with
+  | .ok g' =>
+    let nl := nullableOf g'
+    let fe := firstEnv g' nl
+    let fo := followEnv g' nl fe
+    g'.start == b.start &&
+    chkNullClosed g'.prods nl && chkFirstClosed g'.prods nl fe && chkFollowClosed g'.prods nl fe fo &&
+    (envGet fo g.start).contains endmarker &&
+    (itemsAt b.states 0).contains { prod := { head := b.start, body := [Sym.nonterm g.start] }, dot := 0, la := none } &&
+    (b.states.all fun I => I.all fun it => it.la.isNone) &&
+    chkClosed g' nl fe b.states && chkAdvance b.states b.table &&
+    chkReduceComplete b.start (envGet fo) b.states b.table &&
+    chkConflictFree b.table && chkFresh g b.start
+  | _ => false
+
+/-- the completeness validator for a conflict-free table of construction `k` -/
+def completeOKFor (k : Kind) (g : SGrammar) (b : Built) : Bool :=
+  match k with
+  | .slr => completeSLROK g b
+  | _ => completeLR1OK g b
+
+/-! ## derivation trees -/
+
+mutual
+/-- `t` is a derivation tree of `g` for the symbol `X` -/
+def derivesT (g : SGrammar) : Tree → Sy → Prop
+  | .leaf a, X => X = Sym.term a
+  | .node p ks, X => X = Sym.nonterm p.head ∧ p ∈ g.prods ∧ derivesL g ks p.body
+  | .nil, _ => False
+def derivesL (g : SGrammar) : List Tree → List Sy → Prop
+  | [], Xs => Xs = []
+  | t :: ts, Xs => ∃ X Xr, Xs = X :: Xr ∧ derivesT g t X ∧ derivesL g ts Xr
+end
+
+mutual
+def treeSize : Tree → Nat
+  | .leaf _ => 1
+  | .node _ ks => 1 + treeSizeL ks
+  | .nil => 1
+def treeSizeL : List Tree → Nat
+  | [] => 0
+  | t :: ts => treeSize t + treeSizeL ts
+end
+
+mutual
+/-- the productions of a tree in the order a bottom-up parser emits them -/
+def postT : Tree → List Pr
+  | .leaf _ => []
+  | .node p ks => postL ks ++ [p]
+  | .nil => []
+def postL : List Tree → List Pr
+  | [] => []
+  | t :: ts => postT t ++ postL ts
+end
 
 /-! ## the declared precedence rule -/
 
